@@ -148,6 +148,46 @@ func c01(c *wk.Ctx) {
 			}
 		}
 	}
+	// vector results: a bare vector is decoded with the caller's prediction of its element type (what every method
+	// with a Vector<> result does). Sizes on both sides of 2^16; the same prediction slice is used for two decodes
+	// in a row and must come back untouched.
+	vecElems := []reflect.Type{reflect.TypeOf(int32(0)), reflect.TypeOf(int64(0)), reflect.TypeOf(""), reflect.TypeOf([]byte{}), reflect.TypeOf(float64(0))}
+	for _, t := range u.Types {
+		if t.Kind() == reflect.Ptr && len(vecElems) < 5+c.Pick(24, 400) && (len(vecElems)%2 == 0 || t.Elem().NumField() <= 2) {
+			vecElems = append(vecElems, t)
+		}
+	}
+	for _, it := range u.Ifaces() {
+		if len(u.Implementers(it)) > 0 && len(vecElems) < 5+c.Pick(40, 800) {
+			vecElems = append(vecElems, it)
+		}
+	}
+	for ei, et := range vecElems {
+		sizes := []int{0, 1, 3}
+		if ei < 5 || ei%6 == 5 {
+			sizes = append(sizes, 700, 65535, 65536, 65537, 70000)
+		}
+		for _, n := range sizes {
+			if c.Mine(idx) {
+				r := c.Rand(idx)
+				c.Begin(idx, fmt.Sprintf("vector-result []%v n=%d", et, n))
+				g := &gen.G{U: u, R: r, MaxDepth: 1, ForceStrLen: -1, ImplPick: -1, Simple: n > 100}
+				st := reflect.SliceOf(et)
+				sl := reflect.MakeSlice(st, n, n)
+				pan, pm, stk := wk.Guard(func() {
+					for i := 0; i < n; i++ {
+						sl.Index(i).Set(g.Value(et, 1, true))
+					}
+				})
+				if pan {
+					c.Log.Emit(coreInconclusive("generator: " + pm + " " + stk))
+				} else {
+					c01vector(c, idx, st, sl)
+				}
+			}
+			idx++
+		}
+	}
 	// several goroutines encode and decode values of their own at once (every caller of the client does that);
 	// expected bytes are those of the sequential run
 	for k := 0; k < c.Pick(8, 120); k++ {
@@ -244,6 +284,58 @@ var c01prev struct {
 	b, cp  []byte
 	t      string
 	obj, v reflect.Value
+}
+
+func c01vector(c *wk.Ctx, idx int, st reflect.Type, sl reflect.Value) {
+	var b []byte
+	var err error
+	pan, pm, stk := wk.Guard(func() { b, err = tl.Marshal(sl.Interface()) })
+	if pan || err != nil {
+		c.Viol("C01", idx, "vector-result/marshal/"+stk, fmt.Sprint(pm, err), st.String())
+		return
+	}
+	hints := []reflect.Type{st}
+	for rep := 0; rep < 2; rep++ {
+		var obj tl.Object
+		pan, pm, stk = wk.Guard(func() { obj, err = tl.DecodeUnknownObject(b, hints...) })
+		what := fmt.Sprintf("%v with %d elements, decode #%d with the same prediction slice", st, sl.Len(), rep+1)
+		switch {
+		case pan:
+			c.Viol("C01", idx, "vector-result/panic/"+stk, what+": "+wk.Short(pm, 300), st.String())
+			return
+		case err != nil:
+			c.Viol("C01", idx, fmt.Sprintf("vector-result/error/decode=%d", rep+1), what+": "+err.Error(), st.String())
+			return
+		}
+		ws, ok := obj.(*tl.WrappedSlice)
+		if !ok {
+			c.Viol("C01", idx, "vector-result/type", fmt.Sprintf("%s: got %T", what, obj), st.String())
+			return
+		}
+		got := reflect.ValueOf(ws.Unwrap())
+		if got.Type() != st {
+			c.Viol("C01", idx, "vector-result/slice-type", fmt.Sprintf("%s: got %v", what, got.Type()), st.String())
+			return
+		}
+		if got.Len() != sl.Len() {
+			c.Viol("C01", idx, "vector-result/length", fmt.Sprintf("%s: %d elements came back", what, got.Len()), st.String())
+			return
+		}
+		if d := gen.Equal(sl, got, st.String()); d != "" {
+			c.Viol("C01", idx, "vector-result/differs", what+": "+d, st.String())
+			return
+		}
+		if len(hints) != 1 || hints[0] != st {
+			c.Viol("C01", idx, "vector-result/prediction-slice-modified", fmt.Sprintf("%s: the caller's prediction slice now holds %v", what, hints), st.String())
+			return
+		}
+	}
+	sz := "small"
+	if sl.Len() > 60000 {
+		sz = "around-2^16"
+	}
+	c.Distinct("vector-result", st.String(), sl.Len())
+	c.Count("vector_results."+sz, 1)
 }
 
 func hasVectorField(t reflect.Type) bool {
